@@ -313,6 +313,15 @@ def main(argv=None):
         "max_paths": 4000 if tier == "quick" else 50000,
         "selfcheck_samples": 2 if tier == "quick" else 5,
     }
+    # differential test of the library models against CPython (DESIGN.md 2.5), every run
+    from . import selftest
+
+    st_bad, st_cases = selftest.run(seed, 10 if tier == "quick" else 60)
+    if st_bad:
+        for b in st_bad[:10]:
+            print(f"CHECKER-DEFECT property={prop} library model disagrees with CPython: {b}")
+        return 3
+    cfg["model_selftest_cases"] = st_cases
     try:
         contracts = load_contracts(prop)
     except Exception:
@@ -341,6 +350,7 @@ def main(argv=None):
     ctxmp = mp.get_context("fork")
     with ctxmp.Pool(nproc, initializer=_worker_init, initargs=(prop, tier, seed, cfg)) as pool:
         results = pool.map(run_case, jobs, chunksize=1)
+    args.model_selftest_cases = st_cases
     return report(prop, tier, seed, contracts, results, args, time.time() - t_start)
 
 
@@ -540,7 +550,8 @@ def report(prop, tier, seed, contracts, results, args, wall):
             violations=violations, known_hits=known_hits, defects=defects, canaries=canaries,
             solver_time=solver_time, by_backend=by_backend, paths=paths, covers=covers, sources=sources,
             samples=samples, slow=sorted(slow, reverse=True)[:10], native_evals=native_evals,
-            selfcheck_samples=selfcheck_samples, wall=wall, ob_names=ob_names, missing=missing))
+            selfcheck_samples=selfcheck_samples, wall=wall, ob_names=ob_names, missing=missing,
+            model_selftest_cases=getattr(args, "model_selftest_cases", 0)))
     return rc
 
 
